@@ -619,6 +619,33 @@ func (p *vPuppet) SendRaw(node peer.ID, b []byte) error {
 	return err
 }
 
+var errVWriteStalled = errors.New("write stalled: nobody reads the stream")
+
+// SendRawTimeout writes with a virtual-time bound: if the node neither reads
+// nor resets the stream the write would block forever (mocknet streams are
+// unbuffered pipes); the stream is then reset from the puppet's side.
+func (p *vPuppet) SendRawTimeout(node peer.ID, b []byte, d time.Duration) error {
+	s, err := p.Open(node)
+	if err != nil {
+		return err
+	}
+	done := make(chan error, 1)
+	go func() { _, err := s.Write(b); done <- err }()
+	select {
+	case err := <-done:
+		return err
+	case <-time.After(d):
+		s.Reset()
+		p.mu.Lock()
+		if p.out[node] == s {
+			delete(p.out, node)
+		}
+		p.mu.Unlock()
+		<-done
+		return errVWriteStalled
+	}
+}
+
 // CloseOut closes (or resets) the puppet's outbound stream = the node's inbound stream.
 func (p *vPuppet) CloseOut(node peer.ID, reset bool) {
 	p.mu.Lock()
